@@ -781,7 +781,9 @@ mod verif_deflate_core {
         assert!(max_dist <= NS_CAP.load(RLX), "OBL:normal.find_match_distance_capped_by_declared_window [C11]");
         assert!(max_match_len as usize <= 258 + 3, "OBL:normal.find_match_limited_to_lookahead [C01 C10]");
         // contract of find_match (K-findmatch): either the incoming (dist, max(len,1)) or a strictly longer match within bounds
-        let better: bool = kani::any();
+        // with a probe budget of 1 (zero probes requested: Huffman-only) the real find_match returns before probing
+        let budget = if match_len.max(1) < 32 { this.max_probes[0] } else { this.max_probes[1] };
+        let better: bool = kani::any() && budget > 1;
         let (d, l) = if better && max_dist >= 1 && (match_len.max(1)) < max_match_len.min(258) {
             let d: u32 = kani::any();
             let l: u32 = kani::any();
@@ -1162,6 +1164,68 @@ mod verif_deflate_core {
     #[kani::stub(LZOxide::write_code, model_write_code)]
     #[kani::stub(flush_block, model_flush_block_noop)]
     fn k_fast_cap_5000() { fast_cap_body(5000); }
+
+    // ------------------------------------------------------------------
+    // K-normal-early : the real compress_normal up to its FIRST token decision, with the token buffer "tight" so that
+    // flush_block is called right after it and reports pending output: the early-return path. The lazy-match state
+    // carried to the next call (saved_lit / saved_match_dist / saved_match_len) must describe exactly the byte
+    // that was skipped. Positions and input concrete (window/hash indices stay concrete); flags, window bits,
+    // dictionary size, matcher result and flush_block's return value symbolic.
+    // ------------------------------------------------------------------
+    /// concrete nonzero results (a symbolic one lets symbolic execution walk on past the early return with symbolic
+    /// window positions): pending output (5) -- the error variant (-1) takes the same return statement
+    fn model_flush_block_pending(d: &mut CompressorOxide, callback: &mut CallbackOxide, flush: TDEFLFlush) -> Result<i32> {
+        Ok(5)
+    }
+    #[kani::proof]
+    #[kani::unwind(8)]
+    #[kani::stub(DictOxide::find_match, model_find_match)]
+    #[kani::stub(record_match, model_record_match)]
+    #[kani::stub(record_literal, model_record_literal)]
+    #[kani::stub(flush_block, model_flush_block_pending)]
+    fn k_normal_early_return_keeps_lazy_state() {
+        let mut d = any_compressor!();
+        let flags = d.params.flags;
+        kani::assume(flags & TDEFL_FORCE_ALL_RAW_BLOCKS == 0 && flags & TDEFL_RLE_MATCHES == 0);
+        NS_FLAGS.store(flags, RLX);
+        NS_RECORDED.store(0, RLX); NS_TOKENS.store(0, RLX);
+        NS_FM_POS[0].store(usize::MAX, RLX); NS_FM_POS[1].store(usize::MAX, RLX);
+        NS_CAP.store(1usize << core::cmp::max(d.params.window_bits_max, 8), RLX);
+        let pos0: usize = 40000;
+        let size0: usize = kani::any();
+        kani::assume(size0 <= LZ_DICT_SIZE - 3);
+        d.dict.lookahead_size = 0;
+        d.dict.lookahead_pos = pos0;
+        d.dict.size = size0;
+        d.params.saved_match_len = 0;
+        d.params.saved_match_dist = kani::any();
+        d.params.saved_lit = kani::any();
+        NS_SAVED_VALID.store(0, RLX);
+        NS_BASE.store(pos0, RLX);
+        NS_SIZE_AT_BASE.store(size0, RLX);
+        d.params.flush = TDEFLFlush::Sync;
+        d.params.src_pos = 0;
+        d.lz.code_position = LZ_CODE_BUF_SIZE - 7; // tight: the next token forces a block flush
+        let inb = [0x11u8, 0x22, 0x33];
+        let mut outb = [0u8; 8];
+        let ok;
+        {
+            let mut cb = CallbackOxide::new_callback_buf(&inb[..], &mut outb[..]);
+            ok = compress_normal(&mut d, &mut cb);
+        }
+        let moved = d.dict.lookahead_pos - pos0;
+        let pend = (d.params.saved_match_len != 0) as usize;
+        assert!(moved >= 1 && moved <= 3 && d.dict.lookahead_size == 3 - moved, "OBL:normalearly.one_step_then_return [C02]");
+        assert!(d.params.src_pos == 3, "OBL:normalearly.src_pos_written_back [C02]");
+        assert!(moved == NS_RECORDED.load(RLX) + pend, "OBL:normalearly.every_skipped_byte_is_a_token_or_the_pending_lazy_match [C01 C02]");
+        if pend == 1 {
+            assert!(d.params.saved_lit == inb[0], "OBL:normalearly.saved_literal_is_the_skipped_byte [C02 C01]");
+            assert!(NS_FM_POS[0].load(RLX) == pos0 && d.params.saved_match_dist == NS_FM_DIST[0].load(RLX) && d.params.saved_match_len == NS_FM_LEN[0].load(RLX),
+                "OBL:normalearly.saved_match_is_the_one_found_at_the_skipped_position [C02 C01]");
+        }
+        kani::cover!(pend == 1, "COV:normalearly.lazy_match_pending");
+        kani::cover!(pend == 0 && NS_RECORDED.load(RLX) == 3, "COV:normalearly.match_recorded");
+    }
 
     //@PLAYBACK@
 }
